@@ -52,6 +52,10 @@ pub struct SimSys {
     /// run the simulation on a thread with a 2 MiB stack (Rust's default for spawned threads) instead of the
     /// worker's large one: recursion whose depth grows with the input is then a crash, not a silent success
     pub small_stack: bool,
+    /// constant *trigger* delay of the (client, server) integration in us (C18 integration phase only)
+    pub trigger_delay_us: (u64, u64),
+    /// run through the `sim()` entry point (network delay, max_trace_length, only_network_activity only)
+    pub api_sim: bool,
 }
 impl SimSys {
     pub fn new(trace: Vec<Pkt>, delay_ns: u64) -> Self {
@@ -73,6 +77,8 @@ impl SimSys {
             trace_style: 0,
             report_delay_us: (0, 0),
             small_stack: false,
+            trigger_delay_us: (0, 0),
+            api_sim: false,
         }
     }
     pub fn trace_text(&self) -> String {
@@ -96,16 +102,14 @@ impl SimSys {
         }
         text
     }
-    fn integration(us: u64) -> Option<maybenot_simulator::integration::Integration> {
+    fn integration(report_us: u64, trigger_us: u64) -> Option<maybenot_simulator::integration::Integration> {
         use maybenot_simulator::integration::{BinDist, Integration};
-        if us == 0 {
+        if report_us == 0 && trigger_us == 0 {
             return None;
         }
-        let zero = || BinDist::new(r#"{"(0.0, 0.0)": 1.0}"#).expect("bin dist");
         // bins are in milliseconds
-        let ms = us as f64 / 1000.0;
-        let rep = BinDist::new(&format!(r#"{{"({ms}, {ms})": 1.0}}"#)).expect("bin dist");
-        Some(Integration { action_delay: zero(), reporting_delay: rep, trigger_delay: zero() })
+        let constant = |us: u64| { let ms = us as f64 / 1000.0; BinDist::new(&format!(r#"{{"({ms}, {ms})": 1.0}}"#)).expect("bin dist") };
+        Some(Integration { action_delay: constant(0), reporting_delay: constant(report_us), trigger_delay: constant(trigger_us) })
     }
     pub fn network(&self) -> Network {
         Network::new(Duration::from_nanos(self.delay_ns), self.pps)
@@ -120,13 +124,13 @@ impl SimSys {
         a.max_padding_frac_server = self.fracs.2;
         a.max_blocking_frac_server = self.fracs.3;
         a.insecure_rng_seed = Some(self.seed);
-        a.client_integration = Self::integration(self.report_delay_us.0);
-        a.server_integration = Self::integration(self.report_delay_us.1);
+        a.client_integration = Self::integration(self.report_delay_us.0, self.trigger_delay_us.0);
+        a.server_integration = Self::integration(self.report_delay_us.1, self.trigger_delay_us.1);
         a
     }
     pub fn queue(&self) -> SimQueue {
-        if self.report_delay_us != (0, 0) {
-            let (ci, si) = (Self::integration(self.report_delay_us.0), Self::integration(self.report_delay_us.1));
+        if self.report_delay_us != (0, 0) || self.trigger_delay_us != (0, 0) {
+            let (ci, si) = (Self::integration(self.report_delay_us.0, self.trigger_delay_us.0), Self::integration(self.report_delay_us.1, self.trigger_delay_us.1));
             return maybenot_simulator::parse_trace_advanced(&self.trace_text(), self.network(), ci.as_ref(), si.as_ref());
         }
         parse_trace(&self.trace_text(), self.network())
@@ -151,6 +155,8 @@ impl SimSys {
             "trace_text": self.trace_text(),
             "reporting_delay_us": [self.report_delay_us.0, self.report_delay_us.1],
             "small_stack": self.small_stack,
+            "trigger_delay_us": [self.trigger_delay_us.0, self.trigger_delay_us.1],
+            "api_sim": self.api_sim,
         })
     }
     pub fn from_json(v: &Value) -> Result<SimSys, String> {
@@ -175,6 +181,8 @@ impl SimSys {
         s.trace_style = v["trace_style"].as_u64().unwrap_or(0) as u8;
         s.report_delay_us = (v["reporting_delay_us"][0].as_u64().unwrap_or(0), v["reporting_delay_us"][1].as_u64().unwrap_or(0));
         s.small_stack = v["small_stack"].as_bool().unwrap_or(false);
+        s.trigger_delay_us = (v["trigger_delay_us"][0].as_u64().unwrap_or(0), v["trigger_delay_us"][1].as_u64().unwrap_or(0));
+        s.api_sim = v["api_sim"].as_bool().unwrap_or(false);
         Ok(s)
     }
 }
@@ -213,7 +221,9 @@ pub fn run_on(sys: &SimSys, sq: &SimQueue) -> Result<Run, String> {
     let mut q = sq.clone();
     let first = q.get_first_time().ok_or("empty trace")?;
     let args = sys.args();
-    let r = if sys.small_stack {
+    let r = if sys.api_sim {
+        catch_unwind(AssertUnwindSafe(|| maybenot_simulator::sim(&sys.client, &sys.server, &mut q, Duration::from_nanos(sys.delay_ns), sys.max_len, sys.only_net)))
+    } else if sys.small_stack {
         std::thread::scope(|sc| {
             std::thread::Builder::new()
                 .stack_size(2 << 20)
@@ -442,6 +452,8 @@ pub fn s_library(level: usize) -> Vec<Gadget> {
             }
         }
     }
+    // an unlimited self-restarting 1 us timer (bounded only by the run's stop conditions): many events that are not network activity
+    lib.push(Gadget { name: "tmr-restarting(dur1)".into(), m: gadget(NormalSent, Action::UpdateTimer { replace: false, duration: c(1.0), limit: None }, Some(TimerEnd), None), kind: 't', zero_dur: false });
     // a machine that pads when its internal timer ends
     {
         let mut t0: EnumMap<Event, Vec<Trans>> = enum_map! { _ => vec![] };
